@@ -88,7 +88,8 @@ func CFFamilies(tier string) []*FamilySpec {
 	lists = append(lists, closeUnderReductions(gen.CFAll, corpus)...)
 	// added as they are (not closed under reduction: that would multiply the quick corpus by four)
 	lists = append(lists, jumpContextCorpus(tier)...)
-	return []*FamilySpec{genFamily("CF", gen.CFAll, lists), HandFamily("pool", "pool.go.txt"), yexprFamily(tier)}
+	fams := []*FamilySpec{genFamily("CF", gen.CFAll, lists), HandFamily("pool", "pool.go.txt"), yexprFamily(tier)}
+	return append(fams, ExampleFamilies()...)
 }
 
 type famCache struct {
